@@ -413,6 +413,29 @@ def load_known():
     return out
 
 
+# The implementation-shaped trace specifications (TraceStftCount.ImplOK, TraceSi, TraceSiCount) are told the fill
+# counters the code keeps in private attributes.  Those are not part of any property: a tree that represents its
+# streaming state differently simply has no such layer to validate (zeros are logged, the resulting divergences are
+# informational as always, and the run says so).
+PRIVATE_STATE_MISSING = set()
+
+
+def stft_priv(c):
+    try:
+        return {"bl": int(c._buf_len), "ff": bool(c._first_frame)}
+    except AttributeError:
+        PRIVATE_STATE_MISSING.add("STFT (_buf_len, _first_frame)")
+        return {"bl": 0, "ff": False}
+
+
+def si_priv(c):
+    try:
+        return {"skip": int(c._skip), "xRem": int(c._x_rem), "yRem": int(c._y_rem)}
+    except AttributeError:
+        PRIVATE_STATE_MISSING.add("SI (_skip, _x_rem, _y_rem)")
+        return {"skip": 0, "xRem": 0, "yRem": 0}
+
+
 class Run:
     """One check run: collects coverage numbers, violations, writes evidence."""
 
@@ -471,6 +494,10 @@ class Run:
 
     def finish(self):
         os.makedirs(EVID, exist_ok=True)
+        if PRIVATE_STATE_MISSING:
+            self.extra["private_state_not_found"] = sorted(PRIVATE_STATE_MISSING)
+            print("NOTE %s: private streaming state not found (%s): implementation-shaped trace layer not applicable to this tree"
+                  % (self.prop, "; ".join(sorted(PRIVATE_STATE_MISSING))))
         for kid, ent in self.known_seen.items():
             print("KNOWN-FINDING: property=%s %s [%s; %d occurrence(s) this run]" % (self.prop, ent["what"], kid, ent["count"]))
         rc = 0
